@@ -110,6 +110,8 @@ pub struct World {
     pub unlock: HashMap<Address, Unlock>,
     pub cur: Unsealed,
     pub tip: Option<Sealed>,
+    /// the sealed state before `tip`
+    pub prev_tip: Option<Sealed>,
     pub known_ids: HashMap<[u8; 32], CoinID>,
     pub pool_slots: HashMap<[u8; 32], Vec<u8>>,
     pub utxo: BTreeMap<CoinID, CoinDataHeight>,
@@ -164,6 +166,7 @@ impl World {
             unlock,
             cur,
             tip,
+            prev_tip: None,
             known_ids: HashMap::new(),
             pool_slots: HashMap::new(),
             utxo: BTreeMap::new(),
@@ -382,6 +385,7 @@ impl World {
                 match next {
                     Ok(n) => {
                         self.cur = n;
+                        self.prev_tip = self.tip.take();
                         self.tip = Some(sealed);
                         self.refresh();
                         SealEvent { height, net: self.net, action, block_txs, phases, panic: None, header: Some(header), parent_header }
